@@ -3,8 +3,9 @@ CONSTANTS
   Names = {"f1", "f2"}
   Rounds = {0, 1, 2, 3, 4}
   NoFork = NoFork
+  Aliased = FALSE
   Inclusive = TRUE
   MaxOps = 3
-INVARIANTS C43_MissingFork C43_BeforeFork C43_AfterFork
+INVARIANTS CacheCoherent C43_MissingFork C43_BeforeFork C43_AfterFork
 PROPERTIES C43_OnlyOwnerRecords
 CHECK_DEADLOCK FALSE
